@@ -14,62 +14,6 @@ def dgrams : List UEv → List (Addr × Wire)
   | .dgram s w :: rest => (s, w) :: dgrams rest
   | .block _ :: rest => dgrams rest
 
-/-- Loop invariant of `receive_udp`: whatever it returns is one of the script's datagrams, at the reported
-position, it passed the source check and the parser, and (under `ignore_errors` with a query) `is_response`. -/
-theorem receiveUdp_ok (coe : Bool) (af : Nat) (dest : Option Addr) (exp : Option Nat) (o : UOpts) (query : Option Msg) :
-    ∀ (script : List UEv) (now idx : Nat) (r : URet),
-      receiveUdp coe af dest exp o query script now idx = .ok r →
-      idx ≤ r.idx ∧ ∃ w, (dgrams script)[r.idx - idx]? = some (r.src, w) ∧
-        matchesDestination af r.src dest o.ignoreUnexpected = .ok true ∧
-        fromWire w o.ignoreTrailing o.raiseOnTruncation (coe && o.ignoreErrors) = .ok r.msg ∧
-        rejects o.ignoreErrors query r.msg = false := by
-  intro script
-  induction script with
-  | nil => intro now idx r h; simp [receiveUdp] at h
-  | cons ev rest ih =>
-    intro now idx r h
-    cases ev with
-    | block dt =>
-      simp only [receiveUdp] at h
-      split at h
-      · simp at h
-      · rename_i now' _
-        obtain ⟨h1, w, h2, h3⟩ := ih now' idx r h
-        exact ⟨h1, w, by simpa [dgrams] using h2, h3⟩
-    | dgram src w =>
-      simp only [receiveUdp] at h
-      have skip : ∀ {r}, receiveUdp coe af dest exp o query rest now (idx + 1) = .ok r →
-          idx ≤ r.idx ∧ ∃ w', (dgrams (UEv.dgram src w :: rest))[r.idx - idx]? = some (r.src, w') ∧
-            matchesDestination af r.src dest o.ignoreUnexpected = .ok true ∧
-            fromWire w' o.ignoreTrailing o.raiseOnTruncation (coe && o.ignoreErrors) = .ok r.msg ∧
-            rejects o.ignoreErrors query r.msg = false := by
-        intro r h
-        obtain ⟨h1, w', h2, h3⟩ := ih now (idx + 1) r h
-        refine ⟨by omega, w', ?_, h3⟩
-        have : r.idx - idx = (r.idx - (idx + 1)) + 1 := by omega
-        rw [this]; simpa [dgrams] using h2
-      split at h
-      · simp at h
-      · exact skip h
-      · rename_i hm
-        split at h
-        · split at h
-          · exact skip h
-          · simp at h
-        · split at h
-          · exact skip h
-          · simp at h
-        · split at h
-          · exact skip h
-          · simp at h
-        · rename_i m hf
-          split at h
-          · exact skip h
-          · rename_i hr
-            simp only [Except.ok.injEq] at h
-            subst h
-            refine ⟨Nat.le_refl _, w, by simp [dgrams], hm, hf, by simpa using hr⟩
-
 theorem qmem_iff (n : QEntry) (l : List QEntry) : qmem n l = true ↔ ∃ b ∈ l, QEntry.same n b = true := by
   simp [qmem, List.any_eq_true]
 
@@ -125,44 +69,126 @@ theorem matchesDestination_foreign (af : Nat) (src dest : Addr) (iu mc : Bool)
   simp only [h1, h2, h3]
   cases iu <;> simp
 
-/-- the parser accepts exactly a complete message without (unignored) trailing octets and, when asked to
-raise on truncation, without TC -/
+theorem matchesDestination_none (af : Nat) (src : Addr) (iu : Bool) :
+    matchesDestination af src none iu = .ok true := rfl
+
+/-- the parser accepts exactly: at least a header, whose first two 16-bit fields are the id and the flags, a
+body with every section parsed, no (unignored) trailing octets and, when asked to raise on truncation, no TC -/
 theorem fromWire_ok_iff (w : Wire) (it rt : Bool) (m : Msg) :
     fromWire w it rt false = .ok m ↔
-      ∃ tr, w = .full m tr ∧ (tr = true → it = true) ∧ (tc m.flags && rt) = false := by
-  cases w with
-  | short => simp [fromWire]
-  | broken p fe => cases fe <;> simp [fromWire] <;> split <;> simp
-  | full m' tr =>
-    cases tr <;> cases it <;> simp [fromWire] <;> (try split) <;> simp_all <;> (intro h; subst h; simp_all)
+      header w.octets = some (m.id, m.flags) ∧ m.ednsflags = w.body.ednsflags ∧ m.question = w.body.question ∧
+      w.body.broken = none ∧ (w.body.trailing = true → it = true) ∧ (tc m.flags && rt) = false := by
+  unfold fromWire
+  cases hh : header w.octets with
+  | none => simp
+  | some p =>
+    obtain ⟨i, f⟩ := p
+    cases hb : w.body.broken with
+    | some fe =>
+      cases fe <;> simp <;> (try split) <;> simp
+    | none =>
+      obtain ⟨mi, mf, me, mq⟩ := m
+      cases ht : w.body.trailing <;> cases it <;> simp <;> (try split) <;> simp_all <;> grind
 
-/-- the head datagram is passed over by `receive_udp` -/
+/-- when the parser raises `Truncated`, the message it carries has the id / flags of the header octets and TC -/
+theorem fromWire_truncated (w : Wire) (it rt coe : Bool) (pm : Msg)
+    (h : fromWire w it rt coe = .error (.truncated pm)) :
+    header w.octets = some (pm.id, pm.flags) ∧ tc pm.flags = true ∧ rt = true ∧
+      pm.ednsflags = w.body.ednsflags ∧ pm.question = w.body.question := by
+  unfold fromWire at h
+  cases hh : header w.octets with
+  | none => simp [hh] at h
+  | some p =>
+    obtain ⟨i, f⟩ := p
+    simp only [hh] at h
+    obtain ⟨mi, mf, me, mq⟩ := pm
+    split at h <;> (repeat' split at h) <;> simp_all
+
+theorem judge_accept_iff (coe : Bool) (af : Nat) (dest : Option Addr) (o : UOpts) (query : Option Msg) (src : Addr) (w : Wire) (m : Msg) :
+    judge coe af dest o query src w = .accept m ↔
+      matchesDestination af src dest o.ignoreUnexpected = .ok true ∧
+      fromWire w o.ignoreTrailing o.raiseOnTruncation (coe && o.ignoreErrors) = .ok m ∧
+      rejects o.ignoreErrors query m = false := by
+  unfold judge
+  cases hm : matchesDestination af src dest o.ignoreUnexpected with
+  | error e => simp
+  | ok b =>
+    cases b
+    · simp
+    · cases hf : fromWire w o.ignoreTrailing o.raiseOnTruncation (coe && o.ignoreErrors) with
+      | error e => cases e <;> simp <;> split <;> simp
+      | ok r =>
+        simp only [true_and, Except.ok.injEq]
+        cases hr : rejects o.ignoreErrors query r
+        · simp; intro h; subst h; exact hr
+        · simp; intro h; subst h; simp [hr]
+
+/-- the datagram is passed over by `receive_udp` -/
 def Skipped (coe : Bool) (af : Nat) (dest : Option Addr) (o : UOpts) (query : Option Msg) (src : Addr) (w : Wire) : Prop :=
-  matchesDestination af src dest o.ignoreUnexpected = .ok false ∨
-  (matchesDestination af src dest o.ignoreUnexpected = .ok true ∧ o.ignoreErrors = true ∧
-    match fromWire w o.ignoreTrailing o.raiseOnTruncation (coe && o.ignoreErrors) with
-    | .error (.truncated pm) => rejects true query pm = true
-    | .error _ => True
-    | .ok m => rejects true query m = true)
+  judge coe af dest o query src w = .skip
+
+/-- … which happens exactly for a foreign source under `ignore_unexpected` (the source check answers `False`
+only then), or, under `ignore_errors`, for a datagram from the right place that does not parse, or parses (or
+is truncated) to something that is not a response to the query -/
+theorem skipped_iff (coe : Bool) (af : Nat) (dest : Option Addr) (o : UOpts) (query : Option Msg) (src : Addr) (w : Wire) :
+    Skipped coe af dest o query src w ↔
+      matchesDestination af src dest o.ignoreUnexpected = .ok false ∨
+      (matchesDestination af src dest o.ignoreUnexpected = .ok true ∧ o.ignoreErrors = true ∧
+        match fromWire w o.ignoreTrailing o.raiseOnTruncation (coe && o.ignoreErrors) with
+        | .error (.truncated pm) => rejects true query pm = true
+        | .error _ => True
+        | .ok m => rejects true query m = true) := by
+  unfold Skipped judge
+  cases hm : matchesDestination af src dest o.ignoreUnexpected with
+  | error e => simp
+  | ok b =>
+    cases b
+    · simp
+    · cases hie : o.ignoreErrors <;>
+        cases hf : fromWire w o.ignoreTrailing o.raiseOnTruncation (coe && o.ignoreErrors) with
+        | error e => cases e <;> simp_all [rejects]
+        | ok r => simp_all [rejects]
+
+/-- Loop invariant of `receive_udp`: whatever it returns is one of the script's datagrams, at the reported
+position, and that datagram was accepted by `judge`. -/
+theorem receiveUdp_ok (coe : Bool) (af : Nat) (dest : Option Addr) (exp : Option Nat) (o : UOpts) (query : Option Msg) :
+    ∀ (script : List UEv) (now idx : Nat) (r : URet),
+      receiveUdp coe af dest exp o query script now idx = .ok r →
+      idx ≤ r.idx ∧ ∃ w, (dgrams script)[r.idx - idx]? = some (r.src, w) ∧
+        judge coe af dest o query r.src w = .accept r.msg := by
+  intro script
+  induction script with
+  | nil => intro now idx r h; simp [receiveUdp] at h
+  | cons ev rest ih =>
+    intro now idx r h
+    cases ev with
+    | block dt =>
+      simp only [receiveUdp] at h
+      split at h
+      · simp at h
+      · rename_i now' _
+        obtain ⟨h1, w, h2, h3⟩ := ih now' idx r h
+        exact ⟨h1, w, by simpa [dgrams] using h2, h3⟩
+    | dgram src w =>
+      simp only [receiveUdp] at h
+      split at h
+      · simp at h
+      · obtain ⟨h1, w', h2, h3⟩ := ih now (idx + 1) r h
+        refine ⟨by omega, w', ?_, h3⟩
+        have : r.idx - idx = (r.idx - (idx + 1)) + 1 := by omega
+        rw [this]; simpa [dgrams] using h2
+      · rename_i m hj
+        simp only [Except.ok.injEq] at h
+        subst h
+        exact ⟨Nat.le_refl _, w, by simp [dgrams], hj⟩
 
 theorem receiveUdp_skip (coe : Bool) (af : Nat) (dest : Option Addr) (exp : Option Nat) (o : UOpts) (query : Option Msg)
     (src : Addr) (w : Wire) (rest : List UEv) (now idx : Nat) (h : Skipped coe af dest o query src w) :
     receiveUdp coe af dest exp o query (.dgram src w :: rest) now idx =
       receiveUdp coe af dest exp o query rest now (idx + 1) := by
-  rcases h with h | ⟨hm, hie, hp⟩
-  · simp [receiveUdp, h]
-  · have e : (coe && o.ignoreErrors) = coe := by simp [hie]
-    rw [e] at hp
-    simp only [receiveUdp, hm, e]
-    cases hf : fromWire w o.ignoreTrailing o.raiseOnTruncation coe with
-    | error e =>
-      cases e with
-      | truncated pm => simp only [hf] at hp; simp [hie, hp]
-      | formError => simp [hie]
-      | other => simp [hie]
-    | ok m => simp only [hf] at hp; simp [hie, hp]
+  unfold Skipped at h
+  simp [receiveUdp, h]
 
-/-- a whole prefix of passed-over datagrams (and successful waits are not needed: datagrams only) -/
 theorem receiveUdp_skip_prefix (coe : Bool) (af : Nat) (dest : Option Addr) (exp : Option Nat) (o : UOpts) (query : Option Msg)
     (pre : List (Addr × Wire)) (rest : List UEv) (now idx : Nat)
     (h : ∀ p ∈ pre, Skipped coe af dest o query p.1 p.2) :
@@ -175,5 +201,90 @@ theorem receiveUdp_skip_prefix (coe : Bool) (af : Nat) (dest : Option Addr) (exp
     rw [receiveUdp_skip coe af dest exp o query p.1 p.2 _ now idx (h p (by simp))]
     rw [ih (idx + 1) (fun q hq => h q (by simp [hq]))]
     congr 1; omega
+
+/-! ### `dns.asyncquery`: the budgeted backend calls compute the same thing -/
+
+theorem waitB_timeoutOf (exp : Option Nat) (now dt : Nat) :
+    waitB (timeoutOf exp now) now dt =
+      match waitFor exp now dt with
+      | .ok n => .ok (timeoutOf exp n, n)
+      | .error e => .error e := by
+  cases exp with
+  | none => simp [waitB, timeoutOf, waitFor]
+  | some e =>
+    simp only [waitB, timeoutOf, waitFor, Option.map_some]
+    by_cases h1 : e ≤ now
+    · have : e - now ≤ dt := by omega
+      simp [h1]
+    · by_cases h2 : dt < e - now
+      · have : ¬ (e - now ≤ dt) := by omega
+        simp [h1, h2, this]; omega
+      · have : e - now ≤ dt := by omega
+        simp [h1, h2, this]
+
+theorem waitB_error (budget : Option Nat) (now dt : Nat) (e : Err) (h : waitB budget now dt = .error e) : e = .timeout := by
+  cases budget with
+  | none => simp [waitB] at h
+  | some b => simp only [waitB] at h; split at h <;> simp at h; exact h.symm
+
+theorem waitFor_error' (exp : Option Nat) (now dt : Nat) (e : Err) (h : waitFor exp now dt = .error e) : e = .timeout := by
+  cases exp with
+  | none => simp [waitFor] at h
+  | some d =>
+    simp only [waitFor] at h
+    split at h
+    · simp at h; exact h.symm
+    · split at h <;> simp at h; exact h.symm
+
+theorem giveUp_timeoutOf (exp : Option Nat) (now : Nat) :
+    giveUpB (timeoutOf exp now) now = giveUpClock exp now := by
+  cases exp with
+  | none => rfl
+  | some e =>
+    show now + (e - now) = if e ≤ now then now else e
+    split <;> omega
+
+theorem starvedB_timeoutOf (exp : Option Nat) (now : Nat) : starvedB (timeoutOf exp now) = starved exp := by
+  cases exp <;> rfl
+
+/-- `dns.asyncquery.receive_udp` over a backend that spends a per-call timeout computes exactly what
+`dns.query.receive_udp` computes with `_wait_for` and an absolute deadline. -/
+theorem receiveUdpA_eq (coe : Bool) (af : Nat) (dest : Option Addr) (exp : Option Nat) (o : UOpts) (query : Option Msg) :
+    ∀ (script : List UEv) (now idx : Nat),
+      receiveUdpA coe af dest exp o query script (timeoutOf exp now) now idx =
+        receiveUdp coe af dest exp o query script now idx := by
+  intro script
+  induction script with
+  | nil => intro now idx; simp [receiveUdpA, receiveUdp, starvedB_timeoutOf, giveUp_timeoutOf]
+  | cons ev rest ih =>
+    intro now idx
+    cases ev with
+    | block dt =>
+      simp only [receiveUdpA, receiveUdp, waitB_timeoutOf, giveUp_timeoutOf]
+      cases hw : waitFor exp now dt with
+      | error e => simp
+      | ok n => simp [ih]
+    | dgram src w =>
+      simp only [receiveUdpA, receiveUdp]
+      cases judge coe af dest o query src w <;> simp [ih]
+
+theorem sendB_eq (exp : Option Nat) : ∀ (blocks : List Nat) (now : Nat),
+    sendB blocks (timeoutOf exp now) now = udpSend exp blocks now := by
+  intro blocks
+  induction blocks with
+  | nil => intro now; rfl
+  | cons dt rest ih =>
+    intro now
+    simp only [sendB, udpSend, waitB_timeoutOf, giveUp_timeoutOf]
+    cases hw : waitFor exp now dt with
+    | error e => simp
+    | ok n => simp [ih]
+
+/-- `dns.asyncquery.udp` = `dns.query.udp`, as functions of the script -/
+theorem udpA_eq (coe : Bool) (q : Msg) (af : Nat) (dest : Addr) (timeout : Option Nat) (o : UOpts)
+    (blocks : List Nat) (script : List UEv) (now : Nat) :
+    udpA coe q af dest timeout o blocks script now = udp coe q af dest timeout o blocks script now := by
+  unfold udpA udp
+  simp only [sendB_eq, receiveUdpA_eq]
 
 end Model.Net
